@@ -257,6 +257,16 @@ def run(c, chk):
     chk.rule('R11.8', 'a schema path through a multi section resolves to the template of that section (what step-by-step navigation of the schema yields), not to one instance')
     _c14.walker_template(c, _c08.chk_proxy(chk, {'R14.7': 'R11.8'}), ex)
 
+    # ---- R11.9: what a path resolves to depends on the tree and the path, not on what an earlier call left in errno ----
+    chk.rule('R11.9', 'no step of the resolver branches on errno unless it stored a value into errno first on that path')
+    names = set(g.name for f0 in ('cfg_getopt_secidx', 'cfg_getopt_array') if c.func(f0) for g in c.deep_funcs(c.func(f0))) | \
+        {'cfg_getopt', 'cfg_getsec', 'cfg_rmsec', 'cfg_getopt_secidx', 'cfg_getopt_array'}
+    if not _c08.errno_reads(c, _c08.chk_proxy(chk, {'R8.6': 'R11.9'}), 'R8.6', funcs=names):
+        chk.ok('R11.9', 'resolver functions', 'none of them reads errno', nontrivial=False)
+
+    # ---- R11.10: where an unquoted qualifier ends ------------------------------------------------------
+    qualifier_extent(c, chk, ex, sec)
+
     # ---- R11.5: qualifiers ------------------------------------------------------------------------
     chk.rule('R11.5', 'an index qualifier must be a whole numeral, and every step starts without an instance index (no carry-over between steps)')
     hdrs = _loops.loops_over(sec, 'name')
@@ -319,6 +329,46 @@ def run(c, chk):
             chk.ok('R11.4', fname, 'passes (opt, index) to %s(), which rejects a NULL option before looking at the index' % callee, nontrivial=False)
         else:
             chk.fail('R11.4', 'caller-shape:%s' % fname, c.where(f), '%s() no longer resolves through cfg_getopt_secidx() + %s()' % (fname, callee))
+
+
+def qualifier_extent(c, chk, ex, sec):
+    """R11.10: name=title means: the title is everything up to the next step separator.  The byte set at which the scan of an
+    unquoted qualifier stops must therefore be the byte set the resolver skips between two steps (a title may contain
+    any other byte, '=' included)"""
+    chk.rule('R11.10', 'an unquoted qualifier extends to the next step separator: the scan stops at exactly the bytes that are skipped between steps')
+    seps = set()
+    parsers = set()
+    for p in ex.explore(sec):
+        for e in p.events:
+            if e.kind != 'call':
+                continue
+            if e.name == 'strspn' and len(e.args) > 1 and e.args[1][0] == 'str':
+                seps.add(e.args[1][1])
+            a0 = e.args[0] if e.args else None
+            if e.name not in ('strspn', 'strcspn') and c.func(e.name) is not None and a0 is not None and a0[0] == 'idx' and a0[2][0] == 'bin' and a0[2][1] == 'add' \
+                    and a0[2][2][0] == 'call' and a0[2][2][1] == 'strcspn' and a0[2][3] == ('c', 1):
+                parsers.add(e.name)
+    scans = {}
+    for pn in sorted(parsers):
+        pf = c.func(pn)
+        first = ('p', pf.param_names.get(pf.params[0].name, pf.params[0].name)) if pf.params else None
+        for p in ex.explore(pf):
+            for e in p.events:
+                if e.kind == 'call' and e.name == 'strcspn' and e.args and e.args[0] in (first, ('p', pf.params[0].name)) and e.args[1][0] == 'str':
+                    scans.setdefault(pn, set()).add(e.args[1][1])
+    n = sum(len(v) for v in scans.values())
+    chk.floor('R11.10 scans of an unquoted qualifier', n, 1)
+    if len(seps) != 1:
+        raise report.Broken('cfg_getopt_secidx(): the separator skipped between two steps was not found as one constant byte set (%s)' % sorted(seps))
+    sep = set(list(seps)[0])
+    for pn, sets in sorted(scans.items()):
+        for s_ in sorted(sets):
+            if set(s_) == sep:
+                chk.ok('R11.10', '%s: unquoted qualifier' % pn, 'ends at %r, the bytes skipped between steps' % s_, sample=True)
+            else:
+                chk.fail('R11.10', 'qualifier-extent:%s' % pn, c.where(c.func(pn)), '%s() ends an unquoted qualifier at any of %r, but the steps of a path are separated by %r: '
+                         'a title containing %r can no longer be addressed (the lookup stops early and may select another section)'
+                         % (pn, s_, ''.join(sorted(sep)), ''.join(sorted(set(s_) - sep)) or ''.join(sorted(sep - set(s_)))))
 
 
 def loads_field(f, a, sty, fld):
